@@ -4,18 +4,19 @@
 set -u
 ROOT="$(cd "$(dirname "$0")/.." && pwd)"
 tier="${1:-thorough}"
-seeds=64; [ "$tier" = quick ] && seeds=8
+seeds=48; [ "$tier" = quick ] && seeds=8
 base="${VERIF_SEED:-20261003}"; lo=$(( base % 100000 )); hi=$(( lo + seeds ))
 cd "$ROOT/miri" || exit 2
 export CARGO_NET_OFFLINE=true
 t0=$(date +%s)
 total=0; viol=0; out="$ROOT/miri/target/miri-c18.log"; mkdir -p "$ROOT/miri/target"; : > "$out"
-for mode in 0 1 2 3; do
-  rate=$(python3 -c "print([0.05,0.1,0.2,0.1][$mode])")
-  MIRIFLAGS="-Zmiri-many-seeds=$lo..$hi -Zmiri-preemption-rate=$rate -Zmiri-disable-isolation" cargo +nightly miri run --offline -- $mode >> "$out" 2>&1
+for mode in 0 1 2 3 4 5; do
+  rate=$(python3 -c "print([0.05,0.1,0.2,0.1,0.2,0.4][$mode])")
+  mhi=$hi; [ $mode -ge 4 ] && mhi=$(( lo + 2 * seeds ))   # the registration-race modes get twice the seeds
+  MIRIFLAGS="-Zmiri-many-seeds=$lo..$mhi -Zmiri-preemption-rate=$rate -Zmiri-disable-isolation" cargo +nightly miri run --offline -- $mode >> "$out" 2>&1
   rc=$?
   n=$(grep -c "c18miri mode=$mode ok" "$out")
-  total=$(( total + seeds ))
+  total=$(( total + mhi - lo ))
   if [ $rc -ne 0 ] || grep -q "C18-MIRI-VIOLATION\|Undefined Behavior\|data race" "$out"; then viol=1; fi
 done
 t1=$(date +%s)
@@ -27,7 +28,7 @@ p=f"{root}/evidence/C18.json"
 try: ev=json.load(open(p))
 except Exception: ev=None
 if ev:
-    ev["coverage"]["engine_M"]={"tool":"cargo +nightly miri run, -Zmiri-many-seeds, preemption rates 0.05/0.1/0.2/0.1","seed_range":[int(lo),int(hi)],"workload_modes":4,"executions":int(total),"executions_completed_ok":int(okruns),"wall_s":int(wall),"violation":bool(int(viol)),
+    ev["coverage"]["engine_M"]={"tool":"cargo +nightly miri run, -Zmiri-many-seeds, preemption rates 0.05..0.4","seed_range":[int(lo),int(hi)],"workload_modes":6,"executions":int(total),"executions_completed_ok":int(okruns),"wall_s":int(wall),"violation":bool(int(viol)),
       "what":"2 writer threads (one may clear), 1 checker, 1 watcher through generated HealthClient -> HealthServer in-process; register-semantics check of every Check, per-watcher subsequence/convergence/clear rule, plus Miri's data-race and UB detection"}
     ev["wall_s"]=ev.get("wall_s",0)+int(wall)
     if int(viol): ev["violations"]=ev.get("violations",0)+1
@@ -39,5 +40,5 @@ if [ $viol -ne 0 ]; then
   echo "VIOLATION property=C18 replay=$rp"
   exit 1
 fi
-echo "C18 engine M: $okruns/$total Miri executions ok (seeds $lo..$hi x 4 workload modes) in $(( t1 - t0 ))s"
+echo "C18 engine M: $okruns/$total Miri executions ok (seeds $lo..$hi x 6 workload modes) in $(( t1 - t0 ))s"
 exit 0
